@@ -704,7 +704,7 @@ func runC08(c *RunCtx) {
 		c.Program(fmt.Sprintf("batch/%d", v), func(p *Prog) {
 			cfg := drawBatch(p.Rng, c.Thorough() && v%20 == 0)
 			p.Explore(func(pl Plan) *Result { return epBatch(c, cfg) },
-				ExploreOpts{Base: 4, K: c.Q(2, 4), Funcs: anchoredOr(c, batchFuncs), Pairs: c.Q(15, 100), MaxCases: c.Q(120, 2500)})
+				ExploreOpts{Base: 4, Noise: c.Q(15, 80), K: c.Q(2, 4), Funcs: anchoredOr(c, batchFuncs), Pairs: c.Q(15, 100), MaxCases: c.Q(120, 2500)})
 		})
 	}
 }
@@ -714,7 +714,7 @@ func runC07(c *RunCtx) {
 		c.Program(fmt.Sprintf("outcome/%d", v), func(p *Prog) {
 			cfg := drawOut(p.Rng)
 			p.Explore(func(pl Plan) *Result { return epOutcome(c, cfg) },
-				ExploreOpts{Base: 3, K: c.Q(2, 4), Funcs: anchoredOr(c, batchFuncs), Pairs: c.Q(10, 80), MaxCases: c.Q(80, 2000)})
+				ExploreOpts{Base: 3, Noise: c.Q(15, 80), K: c.Q(2, 4), Funcs: anchoredOr(c, batchFuncs), Pairs: c.Q(10, 80), MaxCases: c.Q(80, 2000)})
 		})
 	}
 	for v := 0; v < c.Q(32, 200); v++ {
